@@ -20,11 +20,15 @@ EXTENDS Integers, Sequences, FiniteSets, TLC, Json, IOUtils
 Traces == JsonDeserialize(IOEnv.TRACE_FILE)
 Fc(n, ok) == IF ok THEN <<>> ELSE <<n>>
 Pair(x) == <<x.nin, x.nout>>
+\* burnt = numbers drawn in memory by sends that raised before the event (never journaled, never sent): a restart forgets
+\* them, and the next journaled send re-synchronises the stored counter - so both readings are accepted
+Plus(x, b) == <<x.nin + b.nin, x.nout + b.nout>>
 Verdict(r) ==
     LET allowed == {Pair(r.pre)} \cup { Pair(r.bounds[i]) : i \in DOMAIN r.bounds } \cup (IF r.completed THEN {Pair(r.post)} ELSE {})
     IN [id |-> r.id,
-        fails |-> Fc("T1c_restored_counters", Pair(r.restored) \in allowed)
-               \o Fc("T1_completed_restored", (r.completed /\ ~r.raised) => Pair(r.restored) = Pair(r.post))
+        fails |-> Fc("T1c_restored_counters", r.burnt.nin >= 0 /\ r.burnt.nout >= 0
+                                               /\ (Pair(r.restored) \in allowed \/ Plus(r.restored, r.burnt) \in allowed))
+               \o Fc("T1_completed_restored", (r.completed /\ ~r.raised) => (Pair(r.restored) = Pair(r.post) \/ Plus(r.restored, r.burnt) = Pair(r.post)))
                \o Fc("T2_no_number_reuse", \A i, j \in DOMAIN r.wire : r.wire[i].seq = r.wire[j].seq => r.wire[i].sha = r.wire[j].sha)
                \o Fc("T1_after_continuation", Pair(r.restored2) = Pair(r.live2))
                \o Fc("K_continuation_error", r.cont_error = "")]
